@@ -46,6 +46,8 @@ FILE_PARTS = {
     "fulldoy": "{year}{doy}{hour}{minute}{second}_{end_year}{end_doy}{end_hour}{end_minute}"
                "{end_second}",
     "hms": "{year}{month}{day}_{hour}{minute}{second}-{end_hour}{end_minute}{end_second}",
+    "fullms": "{year}{month}{day}_{hour}{minute}{second}{millisecond}-{end_year}{end_month}{end_day}T"
+              "{end_hour}{end_minute}{end_second}{end_millisecond}",
     "cov": "{year}-{month}-{day}T{hour}{minute}{second}",
     "disc": "{year}{doy}.{hour}{minute}{second}",
 }
@@ -99,7 +101,7 @@ class Layout:
 def random_layout(rng, end_style=None, dirs=None):
     if dirs is None:
         dirs = rng.choice(DIR_LAYOUTS)
-    end_style = end_style or rng.choice(["full", "full", "fulldoy", "hms", "cov", "disc"])
+    end_style = end_style or rng.choice(["full", "full", "fulldoy", "hms", "cov", "disc", "fullms"])
     cov = None
     if end_style == "cov":
         lim = PERIOD[dirs[2]]
@@ -159,6 +161,16 @@ def random_population(rng, layouts, n=None, sats=None):
             t0 = anchor + D(seconds=rng.randint(-int(spread.total_seconds()),
                                                 int(spread.total_seconds())))
             t1 = t0 + D(seconds=rng.randint(0, lim_s))
+        if "fullms" in styles:
+            # millisecond resolution: several files inside one second, sub-second coverages
+            t0 = t0 + D(milliseconds=rng.choice([0, 1, 250, 500, 999]))
+            if files and rng.random() < 0.4:
+                g = rng.choice(files)
+                t0 = g["t0"].replace(microsecond=0) + D(milliseconds=rng.choice([0, 100, 250, 600, 999]))
+            t1 = t0 + rng.choice([D(0), D(milliseconds=1), D(milliseconds=300), D(milliseconds=999),
+                                  t1 - t0 if t1 >= t0 else D(0)])
+            if t1 - t0 > lim:
+                t1 = t0 + lim
         if rng.random() < 0.3:  # longest admissible
             t1 = t0 + lim
         if "disc" in styles:
